@@ -85,60 +85,65 @@ theorem C13_amp_api_range : ∀ v, ampMax = some v → v ≤ (downmixShift : Int
 /-- **C13_buffer_layout**: for every format and every tick size that
 `libxmp_mixer_prepare` lets through, the final stage writes exactly
 `ticksize · (2 − mono)` samples, i.e. `ticksize · (2 − mono) · (2 − 8bit)` bytes, which is
-the `buffer_size` reported by `xmp_get_frame_info`; the cap at `XMP_MAX_FRAMESIZE` is never
-active and both buffers are large enough. -/
+the `buffer_size` reported by `xmp_get_frame_info`; the cap at `XMP_MAX_FRAMESIZE` samples is
+never active, a frame never exceeds `XMP_MAX_FRAMESIZE` (= `total_size`) bytes in any format,
+and both buffers are large enough. -/
 theorem C13_buffer_layout (f : Fmt) (t : Int) (amp : Nat) (buf32 : List Int)
     (hbuf : buf32.length = buf32Alloc) :
     let ts := prepareTicksize t
     (renderSamples f ts amp buf32).length = ts * (if f.mono then 1 else 2) ∧
     (renderBytes f ts amp buf32).length = bufferSize f ts ∧
     bufferSize f ts = ts * (if f.mono then 1 else 2) * (if f.bits8 then 1 else 2) ∧
-    bufferSize f ts ≤ bufferAlloc ∧ frameSamples f ts ≤ buf32Alloc := by
+    bufferSize f ts ≤ maxFramesize ∧ bufferSize f ts ≤ bufferAlloc ∧ frameSamples f ts ≤ buf32Alloc := by
   intro ts
-  have hts : ts ≤ maxFramesize / 2 := prepareTicksize_le t
+  have hts : ts ≤ ticksizeCap := prepareTicksize_le t
   have hle : frameSamples f ts ≤ buf32.length := by rw [hbuf]; exact frameSamples_le f ts
   have hfs := frameSamples_eq f ts hts
-  have hm : maxFramesize = 24585 := rfl
+  have hc := cap_fits.2
   have hb : bufferSize f ts = frameSamples f ts * (if f.bits8 then 1 else 2) := by
     unfold bufferSize; rw [hfs]
     cases f.mono <;> cases f.bits8 <;> simp
-  refine ⟨?_, ?_, ?_, ?_, ?_⟩
+  have hmax : bufferSize f ts ≤ maxFramesize := by
+    rw [hb, hfs]
+    generalize maxFramesize = M at *
+    generalize ticksizeCap = C at *
+    cases f.mono <;> cases f.bits8 <;> simp <;> omega
+  refine ⟨?_, ?_, ?_, hmax, ?_, ?_⟩
   · rw [renderSamples_length f ts amp buf32 hle, hfs]
     cases f.mono <;> simp
   · rw [renderBytes_length f ts amp buf32 hle, hb]
   · rw [hb, hfs]
     cases f.mono <;> simp
-  · rw [hb, hfs]
-    unfold bufferAlloc
-    have h2 : sizeofInt16 = 2 := rfl
-    rw [hm] at hts
-    rw [hm, h2]
-    cases f.mono <;> cases f.bits8 <;> simp <;> omega
+  · have h2 : bufferAlloc = maxFramesize * 2 := rfl
+    omega
   · exact frameSamples_le f ts
 
 example : (List.replicate buf32Alloc (0 : Int)).length = buf32Alloc := List.length_replicate ..
 
 /-- whatever `libxmp_mixer_get_ticksize` computes (valid quotient, refusal −1), the tick size
-used for the frame is positive and at most `XMP_MAX_FRAMESIZE / 2`; a valid quotient inside that
-range is used unchanged (up to the anticlick minimum), so the rate really selects the frame length. -/
+used for the frame is positive and at most the cap (`XMP_MAX_FRAMESIZE / 4` frames); a valid
+quotient inside that range is used unchanged (up to the anticlick minimum), so the rate really
+selects the frame length. -/
 theorem C13_ticksize_guard (q : Option Int) :
-    0 < prepareTicksize (ticksizeOf q) ∧ prepareTicksize (ticksizeOf q) ≤ maxFramesize / 2 ∧
-    (∀ c, q = some c → 2 ^ anticlickShift ≤ c → c ≤ (maxFramesize / 2 : Nat) →
+    0 < prepareTicksize (ticksizeOf q) ∧ prepareTicksize (ticksizeOf q) ≤ ticksizeCap ∧
+    (∀ c, q = some c → 2 ^ anticlickShift ≤ c → c ≤ (ticksizeCap : Nat) →
       (prepareTicksize (ticksizeOf q) : Int) = c) := by
-  have hm : maxFramesize = 24585 := rfl
-  have ha : anticlickShift = 3 := rfl
+  have hc := cap_fits.1
+  have hp : (0 : Int) < 2 ^ anticlickShift := by decide
   refine ⟨?_, prepareTicksize_le _, ?_⟩
   · unfold prepareTicksize ticksizeOf
-    rw [hm, ha]
+    generalize (2 : Int) ^ anticlickShift = a at *
+    generalize ticksizeCap = C at *
     cases q with
-    | none => simp
+    | none => simp; omega
     | some c =>
       simp only
       split <;> split <;> omega
-  · intro c hc h1 h2
-    subst hc
+  · intro c hq h1 h2
+    subst hq
     unfold prepareTicksize ticksizeOf
-    rw [hm, ha] at *
+    generalize (2 : Int) ^ anticlickShift = a at *
+    generalize ticksizeCap = C at *
     simp only
     split <;> split <;> omega
 
